@@ -888,6 +888,8 @@ def run(chk, pid):
             flat = [o for ctx in c.contexts for o in ctx]
             if pid == "C09":
                 check_compactb(chk, c)
+            if pid == "C03":
+                check_soundb(chk, c)
             okn = any(s["rc"] == 0 for s in c.steps)
             multi = any(sum(1 for e in s["disk"]["tab"] if e[0] != 0) >= 2 for s in c.steps)
             rej = any(s["rc"] != 0 for s in c.steps)
@@ -991,6 +993,34 @@ def premise_of_theorems(chk, cases, seen):
         if not v and c.stratum not in NOT_ORDERED_STRATA and not c.stratum.startswith("replay"):
             raise RuntimeError("stratum %r starts from a file Coq's orderedb rejects (%s): the generator claims more than it delivers"
                                % (c.stratum, c.desc))
+        if not v:
+            first_add_on_sound_file(chk, c)
+
+
+def first_add_on_sound_file(chk, c):
+    """outside the ordered class one theorem still speaks: C03_add_on_any_sound_file — on ANY sound file a successful
+    add_block keeps the file sound iff the region the block occupies is behind the table and free of live blocks.  Coq's
+    add_safeb (sound by C03_add_safeb_sound) is evaluated on the initial file for the first call when that is an add;
+    the library must agree with the theorem in both directions."""
+    flat = [o for ctx in c.contexts for o in ctx]
+    if not flat or flat[0][0] != "add" or not c.steps or container.wf_violation(c.init, c.init["n"]) is not None:
+        return
+    m = flat[0][1].as_model()
+    if m is None or not m[3] or m[4] != 0:
+        return
+    size = len(m[3][0])
+    safe = common.run_model([(50, [container.model_state(c.init), size])])[0] == [0, 1]
+    st = c.steps[0]
+    chk.count("first add on a sound file outside the ordered class: add_safeb says %s, the call %s" % (
+        "safe" if safe else "NOT safe", "succeeded" if st["rc"] == 0 else "was refused"))
+    if st["rc"] != 0:
+        return
+    bad = container.wf_violation(st["disk"], c.n0)
+    if safe and bad:
+        pass                      # the C03 oracle reports it with the concrete history
+    elif not safe and not bad and chk.pid == "C03":
+        chk.violation("C03: correspondence broken: Coq's add_safeb says the first add cannot keep %s sound, yet the file the library wrote is sound"
+                      % c.desc, dict(replay_of(c, 0), correspondence="GFile.add_safeb / C03_add_on_any_sound_file"), False)
 
 
 def check_compactb(chk, c):
@@ -1003,6 +1033,22 @@ def check_compactb(chk, c):
         chk.count("compactb evaluated on an implementation file")
         if r != [0, 1] and container.compact_violation(s["disk"]) is None:
             chk.violation("C09: Coq compactb and the harness oracle disagree on a file", replay_of(c), False)
+
+
+def check_soundb(chk, c):
+    """C03: the property's own soundness conditions, decided by Coq (soundb, = wf by C03_soundb_decides), evaluated on
+    the files the library wrote — the harness's Python oracle and Coq's predicate have to agree on every one of them"""
+    sample = [s for s in c.steps[-2:]]
+    if not sample or len(c.init["raw"]) > 200000:
+        return
+    res = common.run_model([(51, container.model_state(s["disk"])) for s in sample])
+    for s, r in zip(sample, res):
+        chk.count("soundb evaluated on an implementation file: %s" % ("sound" if r == [0, 1] else "NOT sound"))
+        mine = container.wf_violation(s["disk"], c.n0)
+        if r != [0, 1] and mine is None:
+            chk.violation("C03: Coq's soundb rejects a file the library wrote and the harness oracle accepts", replay_of(c), False)
+        elif r == [0, 1] and mine is not None and "signature" not in mine and "version" not in mine and "slots" not in mine:
+            chk.violation("C03: the harness oracle rejects a file (%s) that Coq's soundb accepts" % mine, replay_of(c), False)
 
 
 def readback_violation(rb, ghost, when="after reopen"):
